@@ -1,8 +1,11 @@
-(** Evaluator glue for C19: replays a whole history of checks, clock advances
-    and evictions on the model and compares, step by step, verdict, error,
-    outgoing question and cache contents with what the real Checker did. *)
+(** Evaluator glue for C19: replays a whole history of checks, clock advances,
+    evictions and changes of the service's database on the model (the Checker
+    on the library cache of Model/HashPrefixLRU.v) and compares, step by step,
+    verdict, error, outgoing question, what every cache.Set deleted and kept,
+    and the cache (contents, usage order, byte counter) with what the real
+    Checker did on the real cache. *)
 From Coq Require Export Uint63.
-From AGH Require Import Base.Run Base.Bytes Model.HashPrefix Model.HashPrefixBytes.
+From AGH Require Import Base.Run Base.Bytes Model.HashPrefix Model.HashPrefixBytes Model.HashPrefixLRU.
 Local Open Scope Z_scope.
 
 (** Byte strings of the case terms arrive packed, seven bytes to a primitive
@@ -31,15 +34,20 @@ Fixpoint ub (l : il) : bytes :=
   match l with I0 => [] | IC x l' => u1 x ++ ub l' end.
 
 Inductive cop :=
-  (* host, scripted upstream failure, the cache.Set calls the check made (key,
-     entries the LRU evicted for it, item kept?); observed: blocked, error,
-     question sent, cache entries (prefix, remaining-life class, hashes), the
-     size in bytes the golibs cache reports (Stats().Size) *)
+  (* host, scripted upstream failure, the cache.Set calls the check made (key;
+     observed: entries the LRU evicted for it, in that order, item kept?: the
+     keys of the first loop give the iteration order of the Go map, the rest is
+     compared with what the model of the library cache computes); observed:
+     blocked, error, question sent, cache elements in the order of the
+     library's usage list, least recently used first (prefix, remaining-life
+     class, hashes), the byte counter of the golibs cache *)
   | CCheck (host : bytes) (fail : bool) (sets : list (bytes * list bytes * bool))
            (obs_blocked obs_err : bool) (obs_q : option bytes)
            (obs_cache : list (bytes * Z * list bytes)) (obs_size : Z)
   | CAdvance (secs : Z)
-  | CEvict (ps : list bytes).
+  | CEvict (ps : list bytes)
+  (* the scripted service's database changes: strings removed, strings added *)
+  | CDb (add del : list bytes).
 
 Inductive case :=
   | Case (suffix : bytes) (cache_time_s : Z)
@@ -72,13 +80,21 @@ Definition same_set (a b : list bytes) : bool := subset a b && subset b a.
 
 Definition life_class (now : Z) (it : citem) : Z := (c_expiry it - now / ns_sec + 25) / 100.
 
+Fixpoint all2 {A B} (f : A -> B -> bool) (a : list A) (b : list B) : bool :=
+  match a, b with
+  | [], [] => true
+  | x :: a', y :: b' => f x y && all2 f a' b'
+  | _, _ => false
+  end.
+
+(** Element by element in the order of the usage list. *)
 Definition cache_agrees (now : Z) (c : cache) (obs : list (bytes * Z * list bytes)) : bool :=
-  (length c =? length obs)%nat &&
-  forallb (fun o => let '(p, cl, hs) := o in
-    match cget p c with
-    | Some it => (life_class now it =? cl) && same_set (c_hashes it) hs
-    | None => false
-    end) obs.
+  all2 (fun (e : prefix * citem) o => let '(p, cl, hs) := o in
+    eqb_bytes (fst e) p && (life_class now (snd e) =? cl) && same_set (c_hashes (snd e)) hs) c obs.
+
+(** What a [Set] did: keys deleted (in order), element kept. *)
+Definition ev_agrees (e : set_ev) (o : bytes * list bytes * bool) : bool :=
+  all2 eqb_bytes (fst e) (snd (fst o)) && Bool.eqb (snd e) (snd o).
 
 Definition to_op db (o : cop) : op :=
   match o with
@@ -87,51 +103,59 @@ Definition to_op db (o : cop) : op :=
              (map (fun e => (snd (fst e), snd e)) sets)
   | CAdvance s => OAdvance (s * ns_sec)
   | CEvict ps => OEvict ps
+  | CDb _ _ => OEvict []
+  end.
+
+Definition raw_change (add del : list bytes) (db : list bytes) : list bytes :=
+  filter (fun s => negb (mem_hash s del)) db ++ add.
+
+(** The history with the database threaded through: every check is served by
+    the database as it is at that point. *)
+Fixpoint to_hops (db : list bytes) (ops : list cop) : list hop :=
+  match ops with
+  | [] => []
+  | CDb add del :: r => let db' := raw_change add del db in HDb (parse_txt db') :: to_hops db' r
+  | o :: r => HOp (to_op db o) :: to_hops db r
   end.
 
 (** The model's cache, counted as the golibs cache counts (2-byte key, 8 bytes
     of expiry, 32 bytes per hash), is what the real cache reports, and within
     the configured size. *)
-Definition size_agrees (max : Z) (c : cache) (obs_size : Z) : bool :=
-  (cache_bytes c =? obs_size) && ((max =? 0) || (obs_size <=? max)).
+Definition size_agrees (max : Z) (l : lru) (obs_size : Z) : bool :=
+  (cache_bytes (l_items l) =? obs_size) && (l_size l =? obs_size) && ((max =? 0) || (obs_size <=? max)).
 
-Definition step_ok (max : Z) (sha_tbl : list (bytes * bytes)) (ps_tbl : list (bytes * (bytes * bool))) (o : cop) (res : (Z * cache) * option check_out) : bool :=
+Definition step_ok (max : Z) (sha_tbl : list (bytes * bytes)) (ps_tbl : list (bytes * (bytes * bool))) (o : cop)
+    (res : (list bytes * (Z * lru)) * option check_out * list set_ev) : bool :=
   match o, res with
-  | CCheck host _ _ b e q oc sz, ((now, c), Some out) =>
-      size_agrees max c sz &&
-      Nat.eqb (o_sets_left out) 0 &&
+  | CCheck host _ sets b e q oc sz, ((_, (now, l)), Some out, evs) =>
+      let c := l_items l in
+      size_agrees max l sz &&
+      all2 ev_agrees evs sets &&
       forallb (fun n => match lookup sha_tbl n with Some _ => true | None => false end)
               (names_to_hash (ps_of ps_tbl) host) &&
       match lookup ps_tbl host with Some _ => true | None => false end &&
       Bool.eqb (o_blocked out) b && Bool.eqb (o_err out) e &&
       eqb_option eqb_bytes (o_question out) q && cache_agrees now c oc
   | CCheck _ _ _ _ _ _ _ _, _ => false
-  | _, (_, None) => true
+  | _, (_, None, _) => true
   | _, _ => false
   end.
 
 Definition model_run (c : case) :=
   match c with
-  | Case suffix ct _ sha_tbl ps_tbl db ops =>
-      run (sha_of sha_tbl) (ps_of ps_tbl) suffix (ct * ns_sec) (map (to_op db) ops) (0, [])
+  | Case suffix ct max sha_tbl ps_tbl db ops =>
+      hrun_lru (sha_of sha_tbl) (ps_of ps_tbl) suffix (ct * ns_sec) max (to_hops db ops)
+               (parse_txt db, (0, lru_empty))
   | CaseVia suffix sha_tbl ps_tbl db spelled _ _ =>
-      [((0, []), Some (snd (check_host (sha_of sha_tbl) (ps_of ps_tbl) suffix (3600 * ns_sec)
-                                       (raw_service db false) [] [] 0 spelled [])))]
-  end.
-
-Fixpoint all2 {A B} (f : A -> B -> bool) (a : list A) (b : list B) : bool :=
-  match a, b with
-  | [], [] => true
-  | x :: a', y :: b' => f x y && all2 f a' b'
-  | _, _ => false
+      [((parse_txt db, (0, lru_empty)),
+        Some (snd (check_host (sha_of sha_tbl) (ps_of ps_tbl) suffix (3600 * ns_sec)
+                              (raw_service db false) [] [] 0 spelled [])), [])]
   end.
 
 Definition case_ok (c : case) : bool :=
   match c with
   | Case suffix ct max sha_tbl ps_tbl db ops =>
-      all2 (step_ok max sha_tbl ps_tbl) ops (model_run c) &&
-      (* every recorded Set satisfies the golibs size condition on the model's cache *)
-      run_fits (sha_of sha_tbl) (ps_of ps_tbl) suffix (ct * ns_sec) max (map (to_op db) ops) (0, [])
+      all2 (step_ok max sha_tbl ps_tbl) ops (model_run c)
   | CaseVia suffix sha_tbl ps_tbl db spelled q b =>
       let name := caller_name spelled in
       let out := snd (check_host (sha_of sha_tbl) (ps_of ps_tbl) suffix (3600 * ns_sec)
@@ -144,14 +168,15 @@ Definition case_ok (c : case) : bool :=
 
 Definition mismatches := Base.Run.mismatches case_ok.
 
-(** For replay files: per step verdict, error, question, cache (prefix, class, #hashes), bytes. *)
+(** For replay files: per step verdict, error, question, what each Set deleted
+    and kept, cache in usage order (prefix, class, #hashes), bytes. *)
 Definition explain (c : case) :=
-  map (fun res : (Z * cache) * option check_out =>
-    let '((now, ch), out) := res in
+  map (fun res : (list bytes * (Z * lru)) * option check_out * list set_ev =>
+    let '((_, (now, l)), out, evs) := res in
     (match out with
      | Some o => Some (o_blocked o, o_err o, o_question o)
      | None => None
-     end,
-     map (fun e : prefix * citem => (fst e, life_class now (snd e), length (c_hashes (snd e)))) ch,
-     cache_bytes ch))
+     end, evs,
+     map (fun e : prefix * citem => (fst e, life_class now (snd e), length (c_hashes (snd e)))) (l_items l),
+     l_size l))
     (model_run c).
